@@ -27,8 +27,8 @@ type (
 )
 
 func SplitHostPort(hp string) (string, string, error) { return net.SplitHostPort(hp) }
-func JoinHostPort(h, p string) string                  { return net.JoinHostPort(h, p) }
-func ParseIP(s string) net.IP                          { return net.ParseIP(s) }
+func JoinHostPort(h, p string) string                 { return net.JoinHostPort(h, p) }
+func ParseIP(s string) net.IP                         { return net.ParseIP(s) }
 
 // Seg is one unit of arrival at the client: a TCP segment or a UDP datagram.
 type Seg struct {
